@@ -46,39 +46,27 @@ theorem C08_cmp_findings_fields (r₁ e₁ r₂ e₂ : List Nat) :
 that order is a strict total order on names. -/
 theorem C08_cmp_status : StrictTotal ltBytes := ltBytes_strictTotal
 
-/-- what `Scan` collected before `sortResults`: the extractors' findings, then what `detector.Run` returned -/
-def collectedFindings (i : ScanIn) : List Finding :=
-  i.fsFindings ++ i.stFindings ++ (run i.dets (Index.new (i.fsPkgs ++ i.stPkgs))).findings
+/-- what `Scan` holds before `sortResults`: the extractors' findings, then what `detector.Run` returned — or nothing
+when their joint validation failed (`scanFindings`) -/
+def collectedFindings (i : ScanIn) : List Finding := (scanFindings i).1
 
 def collectedStatus (i : ScanIn) : List Status :=
   i.fsStatus ++ i.stStatus ++ (run i.dets (Index.new (i.fsPkgs ++ i.stPkgs))).status
 
 /-- The emitted findings are sorted by (reference, then Extra) and are a permutation of the collected
-ones. Definitional for the model (`isort`), see the header. "For every scan" includes scans on which the
-Go code PANICS: a finding without advisory/ID (only an extractor can contribute one) is totalised as
-smallest by `optKeyLt`, whereas `cmpFindings` dereferences nil — `C08_findings_keyed_unless_panic` says
-when that is, `C20_no_sort_panic_partial` that it cannot happen without extractor findings. -/
+ones. Definitional for the model (`isort`), see the header. Every finding that reaches `sortResults` has a key
+(`C08_findings_keyed`), so `optKeyLt`'s totalisation of keyless findings never matters and the order is the real
+`cmpFindings` order (`C20_no_sort_panic`: the Go comparator cannot dereference nil). -/
 theorem C08_findings_sorted (i : ScanIn) :
     (scanTail i).findings.Pairwise (fun a b => optKeyLt (sortKey b) (sortKey a) = false) ∧
     (scanTail i).findings.Perm (collectedFindings i) := by
   unfold scanTail collectedFindings
   exact ⟨isort_sorted_of_key optKeyLt_strictTotal sortKey _, isort_perm _ _⟩
 
-/-- Where the model does not predict a panic and there is anything to compare, every emitted finding has a key
-(so the order below is the real `cmpFindings` order, not the totalisation). -/
-theorem C08_findings_keyed_unless_panic (i : ScanIn) (hp : (scanTail i).panics = false)
-    (hl : 2 ≤ (scanTail i).findings.length) : ∀ f ∈ (scanTail i).findings, (sortKey f).isSome = true := by
-  have hperm := (C08_findings_sorted i).2
-  have hlen : 2 ≤ (collectedFindings i).length := by rw [← hperm.length_eq]; exact hl
+/-- Every emitted finding has a sort key: what `Scan` sorts passed `ValidateAdvisories` (fix 89f87523). -/
+theorem C08_findings_keyed (i : ScanIn) : ∀ f ∈ (scanTail i).findings, (sortKey f).isSome = true := by
   intro f hf
-  have hf' : f ∈ collectedFindings i := hperm.mem_iff.1 hf
-  unfold scanTail at hp
-  simp only [Bool.and_eq_false_iff, decide_eq_false_iff_not, Nat.not_le] at hp
-  rcases hp with hp | hp
-  · unfold collectedFindings at hlen; omega
-  · rw [List.any_eq_false] at hp
-    have := hp f (by unfold collectedFindings at hf'; exact hf')
-    cases h : sortKey f <;> simp_all
+  exact consistent_keyed _ (scanFindings_consistent i) f ((C08_findings_sorted i).2.mem_iff.1 hf)
 
 /-- In words of the keys: if `a` is emitted before `b` and both have keys, then NOT key(b) < key(a). -/
 theorem C08_findings_sorted_keys (i : ScanIn) (a b : Finding) (ka kb : List Nat × List Nat)
